@@ -235,7 +235,7 @@ def _clause(ev, expected, diag):
     return "AbsOK"
 
 
-def validate_traces(chk: Check, traces, site, report=True, shards=8):
+def validate_traces(chk: Check, traces, site, report=True, shards=6):
     stats, rej = tracecheck.validate("LifecycleTrace", traces, shards=shards)
     if report:
         chk.traces += len(traces)
@@ -331,13 +331,13 @@ def run(tier: str, seed: int) -> int:
         ("mstdpet+stdp-nametable", consts(2, t1="mstdpet", am=(1,), prune=False, depth=4), ["NoRedirect"], None),
     ]
     gens = [
-        ("g-stdp-neuron", consts(1, depth=4 if quick else 6), 9000 if quick else None),
+        ("g-stdp-neuron", consts(1, depth=4 if quick else 6), 9000 if quick else 20000),
         ("g-stdp-conn-diffhp", consts(1, share="conn", samehp=False, am=(3,), depth=4 if quick else 5),
          3000 if quick else None),
-        ("g-stdp+stdp", consts(2, am=(1,), depth=3 if quick else 5), 5000 if quick else 60000),
-        ("g-mstdpet+stdp", consts(2, t1="mstdpet", am=(1, 5), depth=3 if quick else 5), 5000 if quick else 60000),
+        ("g-stdp+stdp", consts(2, am=(1,), depth=3 if quick else 5), 5000 if quick else 25000),
+        ("g-mstdpet+stdp", consts(2, t1="mstdpet", am=(1, 5), depth=3 if quick else 5), 5000 if quick else 25000),
     ]
-    ex = ThreadPoolExecutor(max_workers=6)
+    ex = ThreadPoolExecutor(max_workers=5)
     mcf = [(name, exp, ex.submit(run_tlc, c, invs)) for name, c, invs, exp in mc]
     genf = [ex.submit(run_tlc, c, ["Emit"], 1) for _, c, _ in gens]
 
@@ -349,7 +349,7 @@ def run(tier: str, seed: int) -> int:
         replay_graph(chk, g, budget=budget, rng=rng)
 
     # ---- B
-    ntr = 120 if quick else 1500
+    ntr = 120 if quick else 1000
     traces = []
     cfgs = [
         ({"ttype": ["stdp"], "share": "neuron", "samehp": True, "d14": False}, (1, 2, 3, 4)),
